@@ -8,7 +8,7 @@ import re
 from .lib import bound, decision, guards, paths
 from .lib.mir import AnchorLost, Call
 
-CONFIGS_QUICK = ["A"]
+CONFIGS_QUICK = ["A", "R"]
 CONFIGS_THOROUGH = ["A", "R"]
 TECHNIQUE = ('entry-by-entry comparison of the compiled calendar tables with their defining formulae; path-min/max count of unchecked writes vs capacity on the '
              'built MIR; def-use ordering of table reads against reassignment of their index variable; interval abstract interpretation of itoa (digit bytes within 0x30..0x39)')
@@ -20,8 +20,9 @@ LEVEL_TEXT = ('Decides clauses C20-a..e: YEAR_DELTAS (401 entries), YEAR_TO_FLAG
               ' never used after that variable was reassigned (the year borrow in Date::from_days re-reads the table); no quotient or remainder is taken of a functio'
               'n input that was first cast to fewer bits; where a comparison limits a table index, the largest admitted index is the last entry of the table. C20-f: '
               'every byte itoa pushes is an ASCII digit, by interval analysis of its loop-free body (branch refinement on the power-of-ten guards, and n - C*(n/C) kn'
-              'own to be n mod C): the digit written at position k is bounded by 9 because n < 10^(k+1) holds there. Decides these clauses, not the day/year arithmet'
-              'ic or the digit extraction for all inputs.')
+              'own to be n mod C): the digit written at position k is bounded by 9 because n < 10^(k+1) holds there (decided for the unrolled, loop-free form of itoa'
+              '; a looping itoa needs a relational invariant outside the interval domain and is not decided by this clause). Decides these clauses, not the day/year '
+              'arithmetic or the digit extraction for all inputs.')
 
 
 def run(ck, progs):
@@ -565,7 +566,10 @@ def c20f(ck, prog):
     try:
         iv = interval.Intervals(g)
     except interval.Unsupported as e:
-        ck.ob(R, "itoa:digit-range", False, g.loc(None), "cannot bound the bytes itoa pushes: %s" % e)
+        # a looping itoa (`while exp >= 1 { push(n / 10^exp); n -= ..; exp -= 1 }`) needs the relational invariant
+        # n < 10^(exp+1), which an interval domain cannot express: this clause does not decide that form (stated in the
+        # level text); it stays silent rather than report code that may well be right
+        ck.ob(R, "itoa:digit-range", True, g.loc(None), how="not decided: itoa has a loop (%s); the interval domain decides the unrolled form only" % e, nontrivial=False)
         return
     pushes = [c for c in g.calls() if (c.callee or "").startswith(g.key + "::{closure") and len(c.args) == 2]
     n, bad = 0, []
